@@ -8,6 +8,7 @@ import (
 	"os"
 	"path/filepath"
 	"runtime"
+	"sort"
 	"strconv"
 	"strings"
 
@@ -52,7 +53,7 @@ var tvPairs = []tvPair{
 	{name: "VolumeNameLen", avfs: tvSide{"vfs_ostype_on.go", "VolumeNameLen"}, ref: perOS("internal/filepathlite/path_unix.go", "internal/filepathlite/path_windows.go", "volumeNameLen")},
 	{name: "uncLen", avfs: tvSide{"vfs_ostype_on.go", "uncLen"}, ref: map[string]tvSide{"windows": {"internal/filepathlite/path_windows.go", "uncLen"}}},
 	{name: "cutPath", avfs: tvSide{"vfs_ostype_on.go", "cutPath"}, ref: map[string]tvSide{"windows": {"internal/filepathlite/path_windows.go", "cutPath"}}},
-	{name: "Join", avfs: tvSide{"vfs_ostype_on.go", "Join"}, ref: map[string]tvSide{"linux": {"path/filepath/path_unix.go", "join"}, "windows": {"path/filepath/path.go", "Join"}},
+	{name: "Join", avfs: tvSide{"vfs_ostype_on.go", "Join"}, ref: map[string]tvSide{"linux": {"path/filepath/path_unix.go", "join"}, "darwin": {"path/filepath/path_unix.go", "join"}, "windows": {"path/filepath/path.go", "Join"}},
 		note: "on Windows avfs.Join delegates to joinWindows as filepath.Join delegates to the Windows join"},
 	{name: "VolumeName", avfs: tvSide{"vfs.go", "VolumeName"}, ref: both("internal/filepathlite/path.go", "VolumeName")},
 	{name: "joinWindows", avfs: tvSide{"vfs_ostype_on.go", "joinWindows"}, ref: map[string]tvSide{"windows": {"path/filepath/path_windows.go", "join"}}},
@@ -60,10 +61,10 @@ var tvPairs = []tvPair{
 	{name: "toUpper", avfs: tvSide{"vfs_ostype_on.go", "toUpper"}, ref: map[string]tvSide{"windows": {"internal/filepathlite/path_windows.go", "toUpper"}}},
 	{name: "Rel", avfs: tvSide{"vfs_ostype_on.go", "Rel"}, ref: both("path/filepath/path.go", "Rel")},
 	{name: "sameWord", avfs: tvSide{"vfs_ostype_on.go", "sameWord"}, ref: perOS("path/filepath/path_unix.go", "path/filepath/path_windows.go", "sameWord")},
-	{name: "Match", avfs: tvSide{"vfs_ostype_on.go", "Match"}, ref: both("path/filepath/match.go", "Match")},
-	{name: "matchChunk", avfs: tvSide{"vfs_ostype_on.go", "matchChunk"}, ref: both("path/filepath/match.go", "matchChunk")},
-	{name: "scanChunk", avfs: tvSide{"vfs_ostype_on.go", "scanChunk"}, ref: both("path/filepath/match.go", "scanChunk")},
-	{name: "getEsc", avfs: tvSide{"vfs_ostype_on.go", "getEsc"}, ref: both("path/filepath/match.go", "getEsc")},
+	{name: "Match", avfs: tvSide{"vfs_ostype_on.go", "Match"}, ref: both("path/filepath/match.go", "Match"), props: []string{"C13", "C14"}},
+	{name: "matchChunk", avfs: tvSide{"vfs_ostype_on.go", "matchChunk"}, ref: both("path/filepath/match.go", "matchChunk"), props: []string{"C13", "C14"}},
+	{name: "scanChunk", avfs: tvSide{"vfs_ostype_on.go", "scanChunk"}, ref: both("path/filepath/match.go", "scanChunk"), props: []string{"C13", "C14"}},
+	{name: "getEsc", avfs: tvSide{"vfs_ostype_on.go", "getEsc"}, ref: both("path/filepath/match.go", "getEsc"), props: []string{"C13", "C14"}},
 	{name: "lazybuf.index", avfs: tvSide{"vfs_ostype_on.go", "lazybuf.index"}, ref: both("internal/filepathlite/path.go", "lazybuf.index")},
 	{name: "lazybuf.append", avfs: tvSide{"vfs_ostype_on.go", "lazybuf.append"}, ref: both("internal/filepathlite/path.go", "lazybuf.append")},
 	{name: "lazybuf.prepend", avfs: tvSide{"vfs_ostype_on.go", "lazybuf.prepend"}, ref: both("internal/filepathlite/path.go", "lazybuf.prepend")},
@@ -80,11 +81,12 @@ var tvPairs = []tvPair{
 	{name: "ReadDir", avfs: tvSide{"vfs.go", "ReadDir"}, ref: both("os/dir.go", "ReadDir"), props: []string{"C14"}},
 }
 
+// The emulated OS types are Linux, Darwin (both use the reference's unix files) and Windows.
 func both(file, fn string) map[string]tvSide {
-	return map[string]tvSide{"linux": {file, fn}, "windows": {file, fn}}
+	return map[string]tvSide{"linux": {file, fn}, "darwin": {file, fn}, "windows": {file, fn}}
 }
 func perOS(unix, win, fn string) map[string]tvSide {
-	return map[string]tvSide{"linux": {unix, fn}, "windows": {win, fn}}
+	return map[string]tvSide{"linux": {unix, fn}, "darwin": {unix, fn}, "windows": {win, fn}}
 }
 
 func goroot() string {
@@ -374,13 +376,13 @@ func (c *tvCtx) foldExpr(cur *astutil.Cursor) bool {
 			if id, ok := n.Y.(*ast.Ident); ok {
 				name = id.Name
 			}
-			if name == "OsWindows" {
-				v := c.os == "windows"
+			if osOf, known := map[string]string{"OsWindows": "windows", "OsLinux": "linux", "OsDarwin": "darwin"}[name]; known && (n.Op == token.EQL || n.Op == token.NEQ) {
+				v := c.os == osOf
 				if n.Op == token.NEQ {
 					v = !v
 				}
 				cur.Replace(boolIdent(v))
-				c.used("vfs.OSType() == OsWindows folded")
+				c.used("vfs.OSType() compared with an OS constant folded")
 				return true
 			}
 		}
@@ -689,10 +691,53 @@ func (p *canonPrinter) expr(e ast.Expr) string {
 	return fmt.Sprintf("<%T>", e)
 }
 
+// literalInit: `x := <literal>` / `x = <literal>` with a single identifier on the left.
+func literalInit(s ast.Stmt) (string, bool) {
+	a, ok := s.(*ast.AssignStmt)
+	if !ok || len(a.Lhs) != 1 || len(a.Rhs) != 1 || a.Tok != token.DEFINE {
+		return "", false
+	}
+	if _, ok := a.Lhs[0].(*ast.Ident); !ok {
+		return "", false
+	}
+	switch r := a.Rhs[0].(type) {
+	case *ast.BasicLit:
+		return r.Value, true
+	case *ast.Ident:
+		if r.Name == "true" || r.Name == "false" || r.Name == "nil" {
+			return r.Name, true
+		}
+	}
+	return "", false
+}
+
 func (p *canonPrinter) block(list []ast.Stmt) {
 	p.depth++
-	for _, s := range list {
-		p.stmt(s)
+	for i := 0; i < len(list); i++ {
+		// a run of adjacent initialisations of fresh locals with literals is order-independent: print it sorted
+		if _, ok := literalInit(list[i]); ok {
+			j := i
+			for j < len(list) {
+				if _, ok := literalInit(list[j]); !ok {
+					break
+				}
+				j++
+			}
+			if j-i > 1 {
+				run := append([]ast.Stmt(nil), list[i:j]...)
+				sort.SliceStable(run, func(a, b int) bool {
+					x, _ := literalInit(run[a])
+					y, _ := literalInit(run[b])
+					return x < y
+				})
+				for _, s := range run {
+					p.stmt(s)
+				}
+				i = j - 1
+				continue
+			}
+		}
+		p.stmt(list[i])
 	}
 	p.depth--
 }
@@ -817,11 +862,13 @@ func (p *canonPrinter) stmt(s ast.Stmt) {
 		for _, sp := range gd.Specs {
 			if vs, ok := sp.(*ast.ValueSpec); ok {
 				for i, nm := range vs.Names {
-					val := ""
-					if i < len(vs.Values) {
-						val = " = " + p.expr(vs.Values[i])
+					if i >= len(vs.Values) {
+						// a declaration without initial value does nothing observable until the variable is first used:
+						// it is not part of the normal form (the variable is named at its first occurrence)
+						p.locals[nm.Name] = true
+						continue
 					}
-					p.emit("var " + p.declare(nm.Name) + " " + p.expr(vs.Type) + val)
+					p.emit("var " + p.declare(nm.Name) + " = " + p.expr(vs.Values[i]))
 				}
 			}
 		}
@@ -961,7 +1008,7 @@ func init() {
 			want = os.Args[2]
 		}
 		for _, p := range tvPairs {
-			for _, osn := range []string{"linux", "windows"} {
+			for _, osn := range []string{"linux", "darwin", "windows"} {
 				if _, ok := p.ref[osn]; !ok {
 					continue
 				}
